@@ -43,6 +43,8 @@ try:
                  "tornado/test/httputil_test.py::HTTPHeadersTest::test_linear_performance",
                  "tornado/test/httputil_test.py::MultipartFormDataTest::test_disposition_param_linear_performance",
                  "tornado/test/simple_httpclient_test.py::SimpleHTTPSClientTestCase::test_request_timeout",
+                 "tornado/test/httputil_test.py::ParseCookieTest::test_unquote_large",
+                 "tornado/test/wsgi_test.py::WSGIContainerThreadPoolTest::test_concurrent_barrier",
                  "tornado/test/simple_httpclient_test.py::SimpleHTTPClientTestCase::test_request_timeout"]
         # wall-clock tests that fail on the clean tree too when the machine is loaded
         r = sh("/venv/bin/python -m pytest -q -p no:cacheprovider " + " ".join("--deselect " + f for f in flaky) + " " + " ".join("tornado/test/" + t for t in a.tests.split()), cwd=wt, timeout=1800,
